@@ -79,13 +79,20 @@ def arg_of(rng, ty, cells):
     if ty == 'key':
         return rng.choice([('I', rng.choice([0, 1, 2, 7])), ('S', rng.choice([b'k', b'a', b'abc', b'len']))])
     if ty == 'bits':
-        return c.rand_cell(rng, types=['bits'])
+        v = c.rand_cell(rng, types=['bits'])
+        if v[0] == 'B' and rng.random() < 0.3:
+            # the same bits as a view into a longer buffer (uniquely owned, not starting at bit 0)
+            return ('W', rng.choice([1, 3, 4, 8, 9]), rng.choice([0, 1, 7, 8, 12]), v[1])
+        return v
     if ty == 'real':
         return c.rand_cell(rng, types=['real'])
     if ty == 'num':
         return c.rand_cell(rng, types=['int', 'int', 'real'])
     if ty == 'fsize':
         return ('I', rng.choice([32, 64, 16]))
+    if ty in ('bytesrc', 'bytesrc4') and rng.random() < 0.25:
+        n = (8 if ty == 'bytesrc' else 32) * rng.randint(0, 3)
+        return ('W', rng.choice([8, 16, 3, 5]), rng.choice([8, 16, 24, 1]), ''.join(rng.choice('01') for _ in range(n)))
     if ty == 'bytesrc':
         return rng.choice([('B', ''.join(rng.choice('01') for _ in range(8 * rng.randint(0, 4)))), ('S', rng.choice([b'', b'ab', b'hello'])),
                            ('V', [('I', rng.randint(0, 255)) for _ in range(rng.randint(0, 5))])])
